@@ -65,7 +65,9 @@ func (c09) Gen(tier string, seed int64, emit func([]Ev)) {
 			switch {
 			case x < 2:
 				e["target"] = "sig"
-				switch r.Intn(4) {
+				switch r.Intn(5) {
+				case 4:
+					e["field"], e["arg"] = "astuff", r.Intn(5)
 				case 0:
 					e["field"], e["arg"] = "tier", r.Intn(65536)
 				case 1:
@@ -322,6 +324,9 @@ func c09Set(e Ev, st *c09State) {
 		case "adjustpts":
 			s.SetAdjustPTS(gots.PTS(UW64(arg)))
 			e["got"] = W64(uint64(s.PTS()))
+		case "astuff":
+			s.SetAlignmentStuffing(uint(GI(arg)))
+			e["got"] = int(s.AlignmentStuffing())
 		case "haspts":
 			s.SetHasPTS(GBool(arg))
 			if s.Command() == scte35.SpliceNull {
